@@ -26,7 +26,9 @@ EXPLANATION = (
     "removable component has a matching remove_request; R5.6 every path that inserts a component into its owner's "
     "collection also registers its route (frozen insertion/registration pairs); R5.7 = C01's R1.5 (every handler returns a "
     "RequestResponse, every from_bool(e) receives a bool on every path of every target - otherwise the answer is None, not one of "
-    "the four statuses) and R5.8 = C11's R11.4 (each permission rule computes its documented predicate) applied here. NOT decided: that a handler which is reached changes only what "
+    "the four statuses) and R5.8 = C11's R11.4 (each permission rule computes its documented predicate) applied here. R5.1 also: the key the dispatcher looks up is the first path element exactly as sent (bound once, no rewriting); R5.9 every permission condition the "
+    "documentation states for an action (docs/source/action_masking.rst) is a validator on the action's static route (four confirmed exceptions frozen); R5.10 no simulator method writes an attribute and "
+    "then decides from that same attribute - directly, through a property or a pure helper - to return False with nothing attempted in between and no write-back. NOT decided: that a handler which is reached changes only what "
     "it should, and status 'success' meaning the operation really succeeded (behavioural)."
 )
 TECHNIQUE = "static: CFG must-pass on the dispatcher, request-tree reconstruction from all add_request sites vs evaluated form_request path templates, purity closure of validators"
@@ -162,6 +164,43 @@ def r5_1(ctx: Ctx) -> None:
                        f"return on the validator-false path: {unparse(n.ast)[:100]}")
     if g.falls_through:
         ctx.fail("R5.1", ctx.key(fn, "every path returns a response"), fn.loc(), "a path falls off the end (returns None)")
+    # the key that is looked up is the path's first element as it was sent: names are exact, so a dispatcher that rewrites the
+    # key (case folding, stripping, prefix matching) lets a request for a nonexistent name reach another component
+    params = [a.arg for a in fn.node.args.args if a.arg != "self"]
+    if not params:
+        raise AnalysisError("R5.1: RequestManager.__call__ has no request parameter")
+    req = params[0]
+
+    def first_element(e: Optional[ast.AST], idx: Optional[int]) -> bool:
+        if e is None:
+            return False
+        if idx is not None:  # `key, *rest = request`
+            return idx == 0 and isinstance(e, ast.Name) and e.id == req
+        if isinstance(e, ast.Subscript) and isinstance(e.value, ast.Name) and e.value.id == req:
+            return isinstance(e.slice, ast.Constant) and e.slice.value == 0
+        return False
+
+    key_uses: List[ast.AST] = []
+    for node in ast.walk(fn.node):
+        if isinstance(node, ast.Compare) and len(node.ops) == 1 and isinstance(node.ops[0], (ast.In, ast.NotIn)) \
+                and unparse(node.comparators[0]) in ("self.request_types", "self.request_types.keys()"):
+            key_uses.append(node.left)
+        elif isinstance(node, ast.Subscript) and unparse(node.value) == "self.request_types":
+            key_uses.append(node.slice)
+        elif isinstance(node, ast.Call) and unparse(node.func) == "self.request_types.get" and node.args:
+            key_uses.append(node.args[0])
+    if not key_uses:
+        raise AnalysisError("R5.1: no lookup in self.request_types found in RequestManager.__call__")
+    for ku in key_uses:
+        if isinstance(ku, ast.Name) and ku.id not in ld.params:
+            vals = ld.all_values(ku.id)
+            ok = bool(vals) and all(first_element(v, i) for v, i in vals)
+            why = f"`{ku.id}` is bound {len(vals)} time(s): " + "; ".join(unparse(v)[:50] if v is not None else "<augmented>" for v, _ in vals)
+        else:
+            ok = first_element(ku, None)
+            why = f"looked up with `{unparse(ku)[:60]}`"
+        ctx.record("R5.1", ctx.key(fn, "the key looked up is the first path element unchanged"), fn.loc(ku), ok,
+                   why if ok else "the dispatcher looks up something other than the first path element as sent - " + why)
     # handler result is what the dispatcher returns
     for h in handlers:
         ok = isinstance(h.ast, ast.Return) or any(
@@ -394,6 +433,85 @@ def r5_6(ctx: Ctx, tree: RequestTree) -> None:
     ctx.floor("R5.6", "insertion/registration pairs", n, 6)
 
 
+def _attempts(ix, f: FuncInfo, n: CNode) -> bool:
+    """The statement does something beyond reading and logging (a call with effects, or one that cannot be resolved)."""
+    from ..purity import PURE_BUILTINS, resolve_callees
+    for c in node_calls(n):
+        if is_logging_call(c):
+            continue
+        ts, why = resolve_callees(ix, f, c)
+        if not ts:
+            if why == "builtin-or-external" or call_name(c) in PURE_BUILTINS:
+                continue
+            return True
+        if any(not effects_of(ix, t, 3).pure for t in ts):
+            return True
+    return False
+
+
+def _reads(ix, f: FuncInfo, expr: ast.AST, depth: int = 2) -> Set[str]:
+    """Attribute names an expression reads, looking through the class's own properties and pure helper methods."""
+    out: Set[str] = set()
+    for a in ast.walk(expr):
+        m = None
+        if isinstance(a, ast.Attribute):
+            out.add(a.attr)
+            if depth > 0 and f.cls is not None and isinstance(a.value, ast.Name) and a.value.id == "self":
+                m = ix.find_method(f.cls, a.attr)
+                if m is not None and (isinstance(m.node, ast.Lambda) or not any("property" in unparse(d) for d in m.node.decorator_list)):
+                    m = None
+        elif isinstance(a, ast.Call) and depth > 0 and isinstance(a.func, ast.Attribute) and isinstance(a.func.value, ast.Name) \
+                and a.func.value.id == "self" and f.cls is not None:
+            m = ix.find_method(f.cls, a.func.attr)
+            if m is not None and (isinstance(m.node, ast.Lambda) or not effects_of(ix, m, 2).pure):
+                m = None
+        if m is not None:
+            out |= _reads(ix, m, m.node, depth - 1)
+    return out
+
+
+def r5_10(ctx: Ctx) -> None:
+    """A refusal decided from the state the same call has just written, with no attempt in between and no write-back, leaves
+    the refused operation's write behind: 'a refused request leaves the state unchanged' needs the decision before the write."""
+    ix = ctx.ix
+    ctx.rule("R5.10", "no simulator method writes an attribute, then decides from that same attribute (directly, through a property "
+                      "or a pure helper) to return False, with nothing attempted in between and the attribute not written back")
+    n = 0
+    for f in ix.all_functions():
+        if "/simulator/" not in f.path or isinstance(f.node, ast.Lambda):
+            continue
+        if not any(isinstance(r, ast.Return) and isinstance(r.value, ast.Constant) and r.value.value is False for r in ast.walk(f.node)):
+            continue
+        g = CFG(f.node)
+        rets = [r for r in g.nodes if r.kind == "stmt" and isinstance(r.ast, ast.Return) and isinstance(r.ast.value, ast.Constant)
+                and r.ast.value.value is False]
+        stores = [(st, t) for st in g.nodes if st.kind == "stmt" and isinstance(st.ast, (ast.Assign, ast.AugAssign, ast.AnnAssign))
+                  for t, _, _ in store_targets(st.ast) if isinstance(t, ast.Attribute)]
+        if not rets or not stores:
+            continue
+        n += 1
+        att = {x for x in g.nodes if _attempts(ix, f, x)}
+        conds = [(c, _reads(ix, f, c.expr_root())) for c in g.nodes if c.kind == "cond" and c.expr_root() is not None and c not in att]
+        bad: List[str] = []
+        for st, t in stores:
+            if st in att:
+                continue  # the value stored is the outcome of an attempt
+            again = {x for x in g.nodes if x is not st and x.kind == "stmt" and isinstance(x.ast, (ast.Assign, ast.AugAssign))
+                     and any(isinstance(tt, ast.Attribute) and tt.attr == t.attr for tt, _, _ in store_targets(x.ast))}
+            for c, rd in conds:
+                if t.attr not in rd:
+                    continue
+                if g.path_avoiding([c], lambda e: False, start=st, blocked_nodes={x.id for x in (att | again) - {st}}) is None:
+                    continue
+                p = g.path_avoiding(rets, lambda e: False, start=c, blocked_nodes={x.id for x in (att | again) - {c}})
+                if p is not None:
+                    bad.append(f"L{st.lineno}: `{unparse(st.ast)[:60]}` then L{c.lineno}: `{unparse(c.expr_root())[:50]}` -> return False")
+        ctx.record("R5.10", ctx.key(f, "refusals are decided before the write"), f.loc(), not bad,
+                   f"{len(stores)} attribute stores, {len(rets)} `return False` exits: no refusal is decided from a value this call wrote"
+                   if not bad else "the method writes, then refuses on what it wrote, and leaves the write in place: " + "; ".join(bad[:2]))
+    ctx.floor("R5.10", "methods with attribute stores and a `return False` exit", n, 60)
+
+
 def check(ctx: Ctx) -> None:
     tree = RequestTree(ctx.ix)
     if tree.problems:
@@ -416,5 +534,10 @@ def check(ctx: Ctx) -> None:
     from . import c01, c11
     with ctx.borrowed({"R1.5": "R5.7"}):
         c01.r1_5(ctx)
+    # a documented permission condition that no validator on the route enforces lets the request through where the
+    # documentation (and the mask built from the same validators) says it is refused
+    with ctx.borrowed({"R11.3": "R5.9"}):
+        c11.r11_3(ctx, armed=True)
     with ctx.borrowed({"R11.4": "R5.8"}):
         c11.r11_4(ctx)
+    r5_10(ctx)
